@@ -403,8 +403,23 @@ pub fn heal_tick(w: &mut World, ctx: &mut Ctx, hook: StepHook) -> Outcome {
     hook(w, ctx)
 }
 
+/// Units (small messages or slices) the sender of a direction still holds unacknowledged (hook).
+fn sender_unacked_units(w: &World, d: Dir) -> usize {
+    let Some(s) = w.sender(d) else { return 0 };
+    let mut u = 0usize;
+    for (id, cm) in w.dirs[d.idx()].chans.iter() {
+        if cm.cfg.kind.reliable() {
+            for m in s.verif_unacked(*id).unwrap_or_default() {
+                u += if m.acked_slices.is_empty() { 1 } else { m.acked_slices.iter().filter(|a| !**a).count() };
+            }
+        }
+    }
+    u
+}
+
 /// Fault-free phase: every reliable message submitted on a healthy connection must be obtained
-/// within `8 + 4 * ceil(units / floor(budget / 1200))` ticks of 500 ms.
+/// within `8 + 4 * ceil(units / floor(budget / 1200))` ticks of 500 ms, units = the larger of what is not yet obtained and
+/// what the sender still holds unacknowledged.
 pub fn heal(w: &mut World, ctx: &mut Ctx, liveness: bool, hook: StepHook) -> Result<HealReport, Fail> {
     let budget = w.cfg.bytes_per_tick;
     let per_tick = (budget / SLICE as u64) as usize;
@@ -413,12 +428,17 @@ pub fn heal(w: &mut World, ctx: &mut Ctx, liveness: bool, hook: StepHook) -> Res
     let mut any = false;
     for i in 0..w.cfg.n_clients {
         for to_client in [false, true] {
-            let u = outstanding_units(w, Dir { client: i, to_client });
+            let d = Dir { client: i, to_client };
+            let u = outstanding_units(w, d);
             if u > 0 {
                 any = true;
             }
+            // what the sender still believes unacknowledged is sent again first (lower ids first) and shares the tick budget with
+            // what is really missing: acknowledgements lost in the fault phase, or ignored because a tick longer than 3 s made the
+            // sender forget the packet before its acknowledgement arrived
+            let held = if u > 0 { sender_unacked_units(w, d) } else { 0 };
             if per_tick > 0 {
-                bound_ticks = bound_ticks.max(8 + 4 * u.div_ceil(per_tick));
+                bound_ticks = bound_ticks.max(8 + 4 * u.max(held).div_ceil(per_tick));
             }
         }
     }
